@@ -241,7 +241,9 @@ Fixpoint sdel (k : key) (s : list item) : list item :=
 Fixpoint sset (x : item) (s : list item) : list item :=
   match s with [] => [] | y :: r => if Z.eqb (ikey x) (ikey y) then x :: r else y :: sset x r end.
 
-Inductive op := OAdd (k : key) (v : val) | OUpdate (k : key) (v : val) | ORemove (k rep : key) | OGet (k : key).
+(* OUpdKey: UpdateKey / UpdateCurrentKey with a key that compares equal (a key-only update: the value is not touched and,
+   when it lives out of node, not even read) *)
+Inductive op := OAdd (k : key) (v : val) | OUpdate (k : key) (v : val) | ORemove (k rep : key) | OGet (k : key) | OUpdKey (k : key).
 Inductive res := RBool (b : bool) | RVal (found : bool) (v : val) | RErr.
 
 Definition session := (list item * tracker * world)%type.
@@ -268,7 +270,7 @@ Definition unfetch (o : opts) (moving_to : option key) (s : session) : session :
   end.
 
 Definition op_target (p : op) : option key :=
-  match p with OAdd _ _ => None | OUpdate k _ => Some k | ORemove k _ => Some k | OGet k => Some k end.
+  match p with OAdd _ _ => None | OUpdate k _ => Some k | ORemove k _ => Some k | OGet k => Some k | OUpdKey k => Some k end.
 
 Definition step (o : opts) (s0 : session) (p : op) : session * res :=
   let s := unfetch o (op_target p) s0 in
@@ -287,6 +289,13 @@ Definition step (o : opts) (s0 : session) (p : op) : session * res :=
       | None => (s, RBool false)
       | Some x =>
           let '(t1, w1, x1) := t_update o (set_val (Some v) x) t w in
+          ((sset x1 sl, t1, w1), RBool true)
+      end
+  | OUpdKey k =>
+      match sfind k sl with
+      | None => (s, RBool false)
+      | Some x =>
+          let '(t1, w1, x1) := t_update o x t w in
           ((sset x1 sl, t1, w1), RBool true)
       end
   | ORemove k rep =>
@@ -377,6 +386,7 @@ Definition mstep (m : list (key * val)) (p : op) : list (key * val) :=
   | OUpdate k v => match mfind k m with Some _ => mset k v m | None => m end
   | ORemove k _ => mdel k m
   | OGet _ => m
+  | OUpdKey _ => m
   end.
 Definition mrun (m : list (key * val)) (ps : list op) := fold_left mstep ps m.
 
